@@ -55,6 +55,8 @@ def mp_scenarios(tier):
     for s in c07.scenarios("quick" if tier == "quick" else "quick"):
         if s.get("engine") == "L":
             continue  # line-level pre-emption is about memory shared by threads of one process; forked processes share none
+        if s.get("faults") and "EIO at T1's" in s["name"] and "one-off EIO at T1's" in s["name"]:
+            continue  # the per-class fault sweep runs in both modes through the fault differential below
         if tier == "thorough" or s["name"] in pick7:
             s = dict(s, mode="mp", split=True)
             s["name"] += " [mp]"
@@ -62,7 +64,7 @@ def mp_scenarios(tier):
     pick12 = {"M1||M2 doc present", "M1||Da doc present", "Df||Da doc present", "M2||R doc present", "M1||DO doc present",
               "Da||DO doc present", "M1||M2 doc absent", "Da||Da doc present"}
     for s in c12.scenarios("quick"):
-        if s.get("engine") == "L":
+        if s.get("engine") == "L" or s.get("faults"):
             continue
         if tier == "thorough" or s["name"] in pick12:
             s = dict(s, mode="mp", split=True)
